@@ -8,7 +8,7 @@ import (
 )
 
 func (core *JApiCore) collectRules() *jerr.JApiError {
-	return core.collectRulesFromDirectives(core.directives)
+	return core.collectRulesFromDirectives(core.directivesWithPastes)
 }
 
 func (core *JApiCore) collectRulesFromDirectives(dd []*directive.Directive) *jerr.JApiError {
